@@ -179,6 +179,7 @@ p_ini_file_parse (PIniFile	*file,
 	FILE		*in_file;
 	pchar		*dst_line;
 	pchar		*tmp_str;
+	PList		*tmp_list;
 	pchar		src_line[P_INI_FILE_MAX_LINE + 1];
 	pchar		key[P_INI_FILE_MAX_LINE + 1];
 	pchar		value[P_INI_FILE_MAX_LINE + 1];
@@ -248,8 +249,15 @@ p_ini_file_parse (PIniFile	*file,
 				if (section != NULL) {
 					if (section->keys == NULL)
 						pp_ini_file_section_free (section);
-					else
-						file->sections = p_list_prepend (file->sections, section);
+					else {
+						tmp_list = p_list_prepend (file->sections, section);
+
+						/* The list is returned as is when a node can't be allocated */
+						if (P_UNLIKELY (tmp_list == file->sections))
+							pp_ini_file_section_free (section);
+						else
+							file->sections = tmp_list;
+					}
 				}
 
 				section = pp_ini_file_section_new (key);
@@ -277,8 +285,14 @@ p_ini_file_parse (PIniFile	*file,
 					if (strcmp (value, "\"\"") == 0 || (strcmp (value, "''") == 0))
 						value[0] = '\0';
 
-					if (section != NULL && (param = pp_ini_file_parameter_new (key, value)) != NULL)
-						section->keys = p_list_prepend (section->keys, param);
+					if (section != NULL && (param = pp_ini_file_parameter_new (key, value)) != NULL) {
+						tmp_list = p_list_prepend (section->keys, param);
+
+						if (P_UNLIKELY (tmp_list == section->keys))
+							pp_ini_file_parameter_free (param);
+						else
+							section->keys = tmp_list;
+					}
 				}
 			}
 		}
@@ -290,8 +304,14 @@ p_ini_file_parse (PIniFile	*file,
 	if (section != NULL) {
 		if (section->keys == NULL)
 			pp_ini_file_section_free (section);
-		else
+		else {
 			file->sections = p_list_append (file->sections, section);
+			tmp_list       = p_list_last (file->sections);
+
+			/* Nothing is appended when a node can't be allocated */
+			if (P_UNLIKELY (tmp_list == NULL || tmp_list->data != (ppointer) section))
+				pp_ini_file_section_free (section);
+		}
 	}
 
 	if (P_UNLIKELY (fclose (in_file) != 0))
